@@ -397,9 +397,8 @@ func canonCrash(kind, eng, point, out string) string {
 		if len(f) != 3 {
 			return "bad " + out
 		}
-		if f[1] == "half-dir-ACCEPTED-as-backup" && f[0] == "killed" {
-			return "half-dir-ACCEPTED " + f[2]
-		}
+		// a kill that lands after the transfer has completed finds a complete, accepted directory:
+		// what counts is what the retry + restore bring back
 		return f[2]
 	}
 }
